@@ -263,6 +263,28 @@ func init() {
 		Oracle:  c10idOracle,
 		Timeout: 20 * 1e9,
 	})
+	// C10 = both sub-checks in one run (what `./check C10` executes)
+	register(&Prop{
+		ID:   "C10",
+		Rule: "C10fp + C10id: " + props["C10id"].Rule + " || " + props["C10fp"].Rule,
+		Gen: func(g *G) {
+			genC10id(g)
+			genC10fp(g)
+		},
+		KeyOf: func(c *Case, impl string) string {
+			if strings.HasPrefix(c.Req, "msgid\t") {
+				return props["C10id"].KeyOf(c, impl)
+			}
+			return c.Req
+		},
+		Oracle: func(c *Case, impl string) *Viol {
+			if strings.HasPrefix(c.Req, "msgid\t") {
+				return c10idOracle(c, impl)
+			}
+			return props["C10fp"].Oracle(c, impl)
+		},
+		Timeout: 20 * 1e9,
+	})
 }
 
 // c10Expected: request -> answer demanded by the property statement itself (official
